@@ -484,3 +484,425 @@ termination_by unseen (allTargets (mkVals es cx st0 t0)) hist
 decreasing_by
   all_goals exact unseen_lt (mem_allTargets ht) (hist_not_mem (by simpa using hh))
 
+/-! ### building the resolver node (the straight-line rest of `getResolverNode`) -/
+
+/-- what `getResolverNode` hands back to its callers: `node.Resolver.Target` (= node name) and
+    `node.LoadBalancer` -/
+structure RNode where
+  id : String
+  lb : Option String
+deriving Repr, DecidableEq
+
+def rkey (id : String) : String := "resolver:" ++ id
+/-- `serviceIDString` + `MapKey` for a splitter / router of service `svc` -/
+def skey (svc : String) : String := "splitter:" ++ svc ++ ".default.default"
+def rtkey (svc : String) : String := "router:" ++ svc ++ ".default.default"
+
+def isHashBased (lb : Option String) : Bool :=
+  match lb with
+  | some p => p = "maglev" || p = "ring_hash"
+  | none => false
+
+/-- subset check, timeouts, target decoration, external-SNI restrictions, mesh gateway mode, retain -/
+def finishResolve (es : Entries) (cx : Ctx) (st : St) (t : Target) (r : Resolver) : Except Err (St × Node) :=
+  if t.subset ≠ "" && !r.subsetExists t.subset then .error .noSubset
+  else
+    let ct0 := if r.ct < 1 then 5 else r.ct
+    let over := decide (cx.ovCT > 0) && decide (ct0 ≠ cx.ovCT)
+    let ct := if over then cx.ovCT else ct0
+    -- the *pointer* the loop ended with: the loaded target carrying earlier mutations
+    let info0 : TInfo := match alook t.id st.loaded with
+      | some i => i
+      | none => { t := t }
+    let sd := alook t.svc es.services
+    let extNow := match sd with
+      | some d => decide (d.extSNI ≠ "")
+      | none => false
+    let ext := info0.external || extNow
+    let sni := match sd with
+      | some d => if d.extSNI ≠ "" then d.extSNI else info0.sni
+      | none => info0.sni
+    if ext && r.redirect.isSome then .error .extRedirect
+    else if ext && !r.subsets.isEmpty then .error .extSubsets
+    else if ext && !r.failover.isEmpty then .error .extFailover
+    else
+      let mgw1 := match sd with
+        | some d => d.mgw
+        | none => info0.mgw
+      let mgw2 := match es.proxy with
+        | some pd => if mgw1 = "" then pd.mgw else mgw1
+        | none => mgw1
+      let overM := !ext && decide (cx.ovMgw ≠ "") && decide (mgw2 ≠ cx.ovMgw)
+      let mgw := if ext then "" else if overM then cx.ovMgw else mgw2
+      let sdef := match alook t.subset r.subsets with
+        | some d => d
+        | none => 0           -- Go map zero value
+      let info : TInfo := { info0 with ct := ct, external := ext, sni := sni, mgw := mgw, subsetDef := sdef }
+      .ok ({ st with loaded := aset t.id info st.loaded, retained := t.id :: st.retained,
+                     custCT := st.custCT || over, custMgw := st.custMgw || overM },
+           .resolver r.isDefault ct r.rt t.id [] r.lb)
+
+/-- `getResolverNode` up to `recordNode` — shared by the normal and the `recursedForFailover` mode -/
+def resolveCore (es : Entries) (cx : Ctx) (st : St) (t : Target) :
+    Except Err (St × RNode × Option (Target × Resolver × Node)) :=
+  match resolveLoop es cx st t st [] t (vals_loaded es cx st t) (vals_t es cx st t) with
+  | .error e => .error e
+  | .ok (st1, .memo id lb) => .ok (st1, ⟨id, lb⟩, none)
+  | .ok (st1, .fresh t' r) =>
+    match finishResolve es cx st1 t' r with
+    | .error e => .error e
+    | .ok (st2, node) => .ok (st2, ⟨t'.id, r.lb⟩, some (t', r, node))
+
+def sectionOpts (f : Failover) : List Opts :=
+  if !f.dcs.isEmpty then f.dcs.map fun dc => { svc := f.svc, subset := f.subset, ns := f.ns, dc := dc }
+  else if !f.targets.isEmpty then f.targets
+  else [{ svc := f.svc, subset := f.subset, ns := f.ns }]
+
+/-- the rewrite options of the failover section that applies to `t` (subset key, else "*") -/
+def failoverOpts (r : Resolver) (t : Target) : List Opts :=
+  match alook t.subset r.failover with
+  | some f => sectionOpts f
+  | none =>
+    match alook "*" r.failover with
+    | some f => sectionOpts f
+    | none => []
+
+/-- `rewriteTarget` for every failover option; "don't failover to yourself" -/
+def failoverTargets (cx : Ctx) (st : St) (t : Target) : List Opts → St × List Target
+  | [] => (st, [])
+  | o :: os =>
+    let nt := newTarget cx st (rewrite t o)
+    let r := failoverTargets cx nt.1 t os
+    (r.1, if nt.2.id ≠ t.id then nt.2 :: r.2 else r.2)
+
+/-- `getResolverNode(target, true)` for each failover target (never recurses further) -/
+def failoverResolve (es : Entries) (cx : Ctx) (st : St) : List Target → Except Err (St × List String)
+  | [] => .ok (st, [])
+  | ft :: rest =>
+    match resolveCore es cx st ft with
+    | .error e => .error e
+    | .ok (st1, rn, _) =>
+      match failoverResolve es cx st1 rest with
+      | .error e => .error e
+      | .ok (st2, ids) => .ok (st2, rn.id :: ids)
+
+def Node.withFailover (n : Node) (ids : List String) : Node :=
+  match n with
+  | .resolver d ct rt tgt _ lb => .resolver d ct rt tgt ids lb
+  | other => other
+
+/-- `getResolverNode(target, false)` -/
+def resolverNode (es : Entries) (cx : Ctx) (st : St) (t : Target) : Except Err (St × RNode) :=
+  match resolveCore es cx st t with
+  | .error e => .error e
+  | .ok (st1, rn, none) => .ok (st1, rn)
+  | .ok (st1, rn, some (t', r, node)) =>
+    -- recordNode before failover: the memo short-circuits failover targets that resolve back here
+    let st2 : St := { st1 with rmemo := (t'.id, r.lb) :: st1.rmemo }
+    let ft := failoverTargets cx st2 t' (failoverOpts r t')
+    match failoverResolve es cx ft.1 ft.2 with
+    | .error e => .error e
+    | .ok (st4, ids) =>
+      .ok ({ st4 with nodes := st4.nodes ++ [(rkey t'.id, node.withFailover ids)] }, rn)
+
+/-! ### splitters: memo recorded before recursing -/
+
+mutual
+/-- `getSplitterNode`. `marks` = keys of `c.splitterNodes`; the returned list is the *increment*. -/
+def splitterNode (es : Entries) (cx : Ctx) (marks : List String) (st : St) (name : String) :
+    Except Err (List String × St × Option String) :=
+  if hm : name ∈ marks then .ok ([], st, some (skey name))
+  else
+    match hs : alook name es.splitters with
+    | none => .ok ([], st, none)
+    | some splits =>
+      if disableAdv cx then .ok ([], { st with custProto := true }, none)
+      else
+        match splitLoop es cx (name :: marks) st name splits none with
+        | .error e => .error e
+        | .ok (dm, st1, cs, lb) =>
+          .ok (dm ++ [name],
+               { st1 with nodes := st1.nodes ++ [(skey name, .splitter cs lb)], adv := true },
+               some (skey name))
+termination_by (unseen (akeys es.splitters) marks, 0)
+decreasing_by
+  exact Prod.Lex.left _ _ (unseen_lt (alook_key_mem hs) hm)
+
+/-- the loop over `splitter.Splits` -/
+def splitLoop (es : Entries) (cx : Ctx) (marks : List String) (st : St) (name : String)
+    (splits : List Split) (lb : Option String) :
+    Except Err (List String × St × List CSplit × Option String) :=
+  match splits with
+  | [] => .ok ([], st, [], lb)
+  | s :: rest =>
+    let svc := dflt s.svc name
+    -- "eligible for additional splitting"
+    match (if svc ≠ name ∧ s.subset = "" then splitterNode es cx marks st svc else .ok ([], st, none)) with
+    | .error e => .error e
+    | .ok (dm1, st1, some key) =>
+      match splitLoop es cx (dm1 ++ marks) st1 name rest lb with
+      | .error e => .error e
+      | .ok (dm2, st2, cs, lb') => .ok (dm2 ++ dm1, st2, ⟨s.weight, key, s.svc, s.subset⟩ :: cs, lb')
+    | .ok (dm1, st1, none) =>
+      let nt := newTarget cx st1 { svc := svc, subset := s.subset, ns := "default", part := "default" }
+      match resolverNode es cx nt.1 nt.2 with
+      | .error e => .error e
+      | .ok (st2, rn) =>
+        let lb1 := if lb.isNone && isHashBased rn.lb then rn.lb else lb
+        match splitLoop es cx (dm1 ++ marks) st2 name rest lb1 with
+        | .error e => .error e
+        | .ok (dm2, st3, cs, lb') => .ok (dm2 ++ dm1, st3, ⟨s.weight, rkey rn.id, s.svc, s.subset⟩ :: cs, lb')
+termination_by (unseen (akeys es.splitters) marks, splits.length + 1)
+decreasing_by
+  · exact Prod.Lex.right _ (by simp)
+  · have := unseen_append_le (akeys es.splitters) dm1 marks
+    rcases Nat.lt_or_eq_of_le this with h | h
+    · exact Prod.Lex.left _ _ h
+    · rw [h]; exact Prod.Lex.right _ (by simp)
+  · have := unseen_append_le (akeys es.splitters) dm1 marks
+    rcases Nat.lt_or_eq_of_le this with h | h
+    · exact Prod.Lex.left _ _ h
+    · rw [h]; exact Prod.Lex.right _ (by simp)
+end
+
+/-- `getSplitterOrResolverNode` -/
+def splitterOrResolver (es : Entries) (cx : Ctx) (marks : List String) (st : St) (t : Target) :
+    Except Err (List String × St × String) :=
+  match splitterNode es cx marks st t.svc with
+  | .error e => .error e
+  | .ok (dm, st1, some key) => .ok (dm, st1, key)
+  | .ok (dm, st1, none) =>
+    match resolverNode es cx st1 t with
+    | .error e => .error e
+    | .ok (st2, rn) => .ok (dm, st2, rkey rn.id)
+
+/-- the loop over `router.Routes` in `assembleChain` -/
+def routeLoop (es : Entries) (cx : Ctx) (marks : List String) (st : St) :
+    List Route → Except Err (List String × St × List (String × String))
+  | [] => .ok ([], st, [])
+  | rt :: rest =>
+    let svc := dflt rt.dest.svc cx.svc
+    let ns := dflt rt.dest.ns "default"
+    let part := dflt rt.dest.part "default"
+    let nt := newTarget cx st { svc := svc, subset := rt.dest.subset, ns := ns, part := part }
+    let r : Except Err (List String × St × String) :=
+      if rt.dest.subset = "" then splitterOrResolver es cx marks nt.1 nt.2
+      else
+        match resolverNode es cx nt.1 nt.2 with
+        | .error e => .error e
+        | .ok (st2, rn) => .ok ([], st2, rkey rn.id)
+    match r with
+    | .error e => .error e
+    | .ok (dm1, st1, key) =>
+      match routeLoop es cx (dm1 ++ marks) st1 rest with
+      | .error e => .error e
+      | .ok (dm2, st2, rs) => .ok (dm2 ++ dm1, st2, (rt.pfx, key) :: rs)
+
+/-- `assembleChain`: final state and `c.startNode` -/
+def assemble (es : Entries) (cx : Ctx) : Except Err (St × String) :=
+  match alook cx.svc es.routers with
+  | some routes =>
+    if disableAdv cx then
+      -- the router is ignored and the customization is recorded
+      let nt := newTarget cx { custProto := true } { svc := cx.svc }
+      match splitterOrResolver es cx [] nt.1 nt.2 with
+      | .error e => .error e
+      | .ok (_, st, key) => .ok (st, key)
+    else
+      match recordServiceProtocol es "" cx.svc with
+      | .error e => .error e
+      | .ok p =>
+        match routeLoop es cx [] { adv := true, proto := p } routes with
+        | .error e => .error e
+        | .ok (dm, st1, rs) =>
+          -- catch-all route to the service itself
+          let nt := newTarget cx st1 { svc := cx.svc, ns := "default", part := "default" }
+          match splitterOrResolver es cx dm nt.1 nt.2 with
+          | .error e => .error e
+          | .ok (_, st2, key) =>
+            .ok ({ st2 with nodes := st2.nodes ++ [(rtkey cx.svc, .router (rs ++ [("/", key)]))] }, rtkey cx.svc)
+  | none =>
+    let nt := newTarget cx {} { svc := cx.svc }
+    match splitterOrResolver es cx [] nt.1 nt.2 with
+    | .error e => .error e
+    | .ok (_, st, key) => .ok (st, key)
+
+/-! ### `detectCircularReferences`: DFS with a path-local visited set (`_popvisit`) -/
+
+mutual
+def dfsNode (nodes : List (String × Node)) (path : List String) (k : String) : Except Err Unit :=
+  if hp : k ∈ path then .error .circularRef
+  else
+    match hn : alook k nodes with
+    | none => .error (.internal "detectCircularReferences: missing node")   -- Go: nil dereference
+    | some n => dfsList nodes (k :: path) n.next.reverse
+termination_by (unseen (akeys nodes) path, 0)
+decreasing_by
+  exact Prod.Lex.left _ _ (unseen_lt (alook_key_mem hn) hp)
+
+def dfsList (nodes : List (String × Node)) (path : List String) (ks : List String) : Except Err Unit :=
+  match ks with
+  | [] => .ok ()
+  | c :: cs =>
+    match dfsNode nodes path c with
+    | .error e => .error e
+    | .ok _ => dfsList nodes path cs
+termination_by (unseen (akeys nodes) path, ks.length + 1)
+decreasing_by
+  · exact Prod.Lex.right _ (by simp)
+  · exact Prod.Lex.right _ (by simp)
+end
+
+/-! ### `flattenAdjacentSplitterNodes` -/
+
+/-- exact value of the float32 nearest (ties to even) to the positive rational `n/d`, as a rational
+    `(num, den)` with `den` a power of two; subnormals / overflow cannot occur for split weights -/
+def f32 (n d : Nat) : Nat × Nat :=
+  if n = 0 ∨ d = 0 then (0, 1)
+  else
+    -- exponent e with 2^23 ≤ n / (d·2^e) < 2^24
+    let e0 : Int := (Nat.log2 n : Int) - (Nat.log2 d : Int) - 23
+    let sc (e : Int) : Nat × Nat := if e ≥ 0 then (n, d * 2 ^ e.toNat) else (n * 2 ^ (-e).toNat, d)
+    let e : Int := if (sc e0).1 < 2 ^ 23 * (sc e0).2 then e0 - 1 else e0
+    let N := (sc e).1
+    let D := (sc e).2
+    let q := N / D
+    let rm := N % D
+    let m := if 2 * rm > D ∨ (2 * rm = D ∧ q % 2 = 1) then q + 1 else q
+    if e ≥ 0 then (m * 2 ^ e.toNat, 1) else (m, 2 ^ (-e).toNat)
+
+def f32mul (a b : Nat × Nat) : Nat × Nat := f32 (a.1 * b.1) (a.2 * b.2)
+def f32div (a b : Nat × Nat) : Nat × Nat := f32 (a.1 * b.2) (a.2 * b.1)
+
+/-- `math.Round` (half away from zero) of a non-negative rational -/
+def roundHalfUp (x : Nat × Nat) : Nat := (2 * x.1 + x.2) / (2 * x.2)
+
+/-- the float32 a normalised weight of `k` hundredths is stored as: `float32(k) / 100.0` -/
+def wOf (k : Nat) : Nat × Nat := f32 k 100
+
+/-- `scaleWeight`: `int(math.Round(float64(v * 100.0)))` with the product in float32 -/
+def scaleW (v : Nat × Nat) : Nat := roundHalfUp (f32mul v (100, 1))
+
+/-- `NormalizeServiceSplitWeight(split.Weight * innerSplit.Weight / 100)` on hundredths, in exact
+    float32 arithmetic (the result is again stored as `float32(k)/100`) -/
+def mulW (a b : Nat) : Nat := scaleW (f32div (f32mul (wOf a) (wOf b)) (100, 1))
+
+/-- one splitter's new split list; `none` = a `NextNode` is missing (Go: nil dereference) -/
+def absorb (nodes : List (String × Node)) : List CSplit → Option (List CSplit × Bool)
+  | [] => some ([], false)
+  | s :: rest =>
+    match absorb nodes rest with
+    | none => none
+    | some (rest', ch) =>
+      match alook s.next nodes with
+      | none => none
+      | some (.splitter inner _) =>
+        some (inner.map (fun i => ⟨mulW s.weight i.weight, i.next, i.dsvc, i.dsub⟩) ++ rest', true)
+      | some _ => some (s :: rest', ch)
+
+/-- one pass of the inner `for` over the node names in the given order (in place) -/
+def flattenRound (nodes : List (String × Node)) : List String → Option (List (String × Node) × Bool)
+  | [] => some (nodes, false)
+  | k :: ks =>
+    match alook k nodes with
+    | none => none
+    | some (.splitter ss lb) =>
+      match absorb nodes ss with
+      | none => none
+      | some (ss', ch) =>
+        match flattenRound (if ch then aset k (.splitter ss' lb) nodes else nodes) ks with
+        | none => none
+        | some (n', ch') => some (n', ch || ch')
+    | some _ => flattenRound nodes ks
+
+/-- the outer `for {}`; `none` when a lookup fails or the bound on the number of passes is hit.
+    The bound is not part of the Go code: on an acyclic graph every pass lowers the longest
+    splitter-to-splitter chain, so `#nodes + 1` passes always suffice (the Go loop would spin forever on
+    a cycle, which `detectCircularReferences` has excluded). Hitting the bound surfaces as
+    `Err.internal`, which never matches an implementation answer in the correspondence run. -/
+def flattenLoop : Nat → List String → List (String × Node) → Option (List (String × Node))
+  | 0, _, _ => none
+  | fuel + 1, order, nodes =>
+    match flattenRound nodes order with
+    | none => none
+    | some (n', ch) => if ch then flattenLoop fuel order n' else some n'
+
+/-- `sort.Strings` (insertion sort; bytewise order = code-point order on valid UTF-8) -/
+def insertKey (k : String) : List String → List String
+  | [] => [k]
+  | x :: xs => if k < x then k :: x :: xs else x :: insertKey k xs
+
+def sortKeys : List String → List String
+  | [] => []
+  | k :: ks => insertKey k (sortKeys ks)
+
+/-! ### `removeUnusedNodes` -/
+
+/-- the set of node keys reachable from the todo list -/
+def reach (nodes : List (String × Node)) (todo visited : List String) : Except Err (List String) :=
+  match todo with
+  | [] => .ok visited
+  | k :: rest =>
+    if hv : k ∈ visited then reach nodes rest visited
+    else
+      match hn : alook k nodes with
+      | none => .error (.internal "compilation references non-retained node")
+      | some n => reach nodes (n.next ++ rest) (k :: visited)
+termination_by (unseen (akeys nodes) visited, todo.length)
+decreasing_by
+  · exact Prod.Lex.right _ (by simp)
+  · exact Prod.Lex.left _ _ (unseen_lt (alook_key_mem hn) hv)
+
+/-! ### `Compile` -/
+
+/-- `determineIfDefaultChain` on the pruned nodes / targets -/
+def isDefaultChain (cx : Ctx) (nodes : List (String × Node)) (targets : List (String × TInfo)) (start : String) :
+    Except Err Bool :=
+  match alook start nodes with
+  | none => .error (.internal "missing start node")
+  | some (.resolver d _ _ tgt _ _) =>
+    if !d then .ok false
+    else
+      match alook tgt targets with
+      | none => .error (.internal "missing start target")     -- Go: nil dereference
+      | some i => .ok (i.t.svc = cx.svc && i.t.ns = cx.ns && i.t.part = cx.part)
+  | some _ => .ok false
+
+/-- everything after `assembleChain`, with the flatten visiting order as a parameter -/
+def finishCompile (cx : Ctx) (order : List (String × Node) → List String) (st : St) (start : String) : Except Err Chain :=
+  match dfsNode st.nodes [] start with
+  | .error e => .error e
+  | .ok _ =>
+    match flattenLoop (st.nodes.length + 1) (order st.nodes) st.nodes with
+    | none => .error (.internal "flatten")
+    | some nodes1 =>
+      match reach nodes1 [start] [] with
+      | .error e => .error e
+      | .ok vis =>
+        let nodes2 := nodes1.filter fun kv => vis.contains kv.1
+        let targets := st.loaded.filter fun kv => st.retained.contains kv.1
+        if !httpLike st.proto && st.adv then .error .noAdvRouting
+        else
+          let ov := decide (cx.ovProto ≠ "") && decide (cx.ovProto ≠ st.proto)
+          match isDefaultChain cx nodes2 targets start with
+          | .error e => .error e
+          | .ok d =>
+            .ok { proto := if ov then cx.ovProto else st.proto
+                  start := start
+                  isDefault := d
+                  customized := st.custProto || ov || st.custMgw || st.custCT
+                  nodes := nodes2
+                  targets := targets }
+
+def compileWith (order : List (String × Node) → List String) (es : Entries) (cx : Ctx) : Except Err Chain :=
+  if cx.svc = "" ∨ cx.ns = "" ∨ cx.part = "" ∨ cx.dc = "" ∨ cx.td = "" then .error .badRequest
+  else
+    match assemble es cx with
+    | .error e => .error e
+    | .ok (st, start) => finishCompile cx order st start
+
+/-- `discoverychain.Compile` (repaired flatten: node keys in sorted order) -/
+def compile (es : Entries) (cx : Ctx) : Except Err Chain :=
+  compileWith (fun nodes => sortKeys (akeys nodes)) es cx
+
+end CV.Chain
